@@ -149,12 +149,18 @@ def run(family, tier, seed, prop, only=None, id_regex=None):
             if m["closed"] and m["closed"] not in ("syntactic", "normal-form"):
                 return common.ob(m["id"], verdict="inconclusive", detail=m["closed"], nontrivial=False, **base)
             if m["closed"] in ("syntactic", "normal-form"):
-                # both sides are the same term / have the same normal form: the residual query is `false`
-                # ("syntactic": the two computations produced the very same hash-consed term, which says
-                # little; "normal-form": different terms, equal as polynomials over GF(p))
-                return common.ob(m["id"], verdict="holds", solver="encoder normal form (residual query trivially unsat)",
-                                 nontrivial=(m["closed"] == "normal-form"), queries=0,
-                                 detail="closed by %s" % m["closed"], **base)
+                # The encoder's preprocessing (normal form, GF(p) row reduction) already reduced every
+                # goal atom to `true`; the residual query still goes to the solver, which must answer
+                # unsat. "syntactic": both computations produced the very same hash-consed term (says
+                # little); "normal-form": different terms, equal as polynomials over GF(p).
+                ans, dt, raw = common.run_solver(open(os.path.join(outdir, m["smt"])).read(), common.Z3_NEW, 20)
+                solver, note = "z3-5.1.0", "z3-5.1.0:" + ans
+                if ans != "unsat":
+                    return common.ob(m["id"], verdict="inconclusive", seconds=dt, solver=solver,
+                                     detail="residual query after %s closure answered %s" % (m["closed"], ans), **base)
+                return common.ob(m["id"], verdict="holds", solver=solver + " on the residual query (goal closed by encoder %s)" % m["closed"],
+                                 seconds=dt, nontrivial=(m["closed"] == "normal-form"), queries=1,
+                                 detail="closed by %s; %s" % (m["closed"], note), **base)
             path = os.path.join(outdir, m["smt"])
             # L rendering first (monomials opaque: unsat there is unsat of the exact query);
             # anything else is re-asked on the exact nonlinear rendering N. Each query goes to
